@@ -133,7 +133,10 @@ fn gen_fees(rng: &mut Rng) -> [String; 3] {
             _ => rng.range128(0, E18 / 100),
         }
     };
-    let f = [pick(rng), pick(rng), pick(rng)];
+    let mut f = [pick(rng), pick(rng), pick(rng)];
+    if rng.chance(1, 10) {
+        f = [0, 0, 0];
+    }
     [atomics_to_dec(f[0]), atomics_to_dec(f[1]), atomics_to_dec(f[2])]
 }
 
